@@ -150,10 +150,22 @@ type c09Obs struct {
 // runPath creates a fresh container and bar, applies the operations, reads the getters and (if frame)
 // draws one frame to capture the Statistics handed to the filler.
 func runPath(total int64, path []c09Op, frame bool, ewma bool) c09Obs {
+	return runPathMode(total, path, frame, ewma, false)
+}
+
+// runPathMode: with auto=true the container refreshes by a ticker with a one hour period (never fires here), so a
+// completed bar's goroutine keeps serving operations, which is what an Abort on a completed bar needs.
+func runPathMode(total int64, path []c09Op, frame bool, ewma bool, auto bool) c09Obs {
 	var rec rowRec
 	var last *decor.Statistics
 	mrc := make(chan interface{})
-	p := mpb.New(mpb.WithOutput(&rec), mpb.WithManualRefresh(mrc))
+	var p *mpb.Progress
+	if auto {
+		frame = false
+		p = mpb.New(mpb.WithOutput(&rec), mpb.WithAutoRefresh(), mpb.WithRefreshRate(time.Hour))
+	} else {
+		p = mpb.New(mpb.WithOutput(&rec), mpb.WithManualRefresh(mrc))
+	}
 	filler := mpb.BarFillerFunc(func(w io.Writer, st decor.Statistics) error {
 		c := st
 		last = &c
@@ -293,6 +305,39 @@ func c09Chunks(tier string) []SeqChunk {
 							k, dt := c09Compare(ref, obs, false)
 							if k != "" {
 								dt = fmt.Sprintf("after %s on AddBar(%d): %s", pathString(path), init, dt)
+							}
+							return fmt.Sprintf("cur=%d comp=%v abort=%v", obs.cur, obs.comp, obs.abrt), true, k, dt
+						})
+					}
+				}
+			}
+		}
+	}})
+	// Abort has no effect on a completed bar: every way of completing, then Abort(false/true), manual and auto refresh
+	chunks = append(chunks, SeqChunk{Name: "c09-abort-after-complete", Gen: func(env *SeqEnv) {
+		completers := [][]c09Op{
+			{{k: "IncrInt64", n: 5}}, {{k: "SetCurrent", n: 5}}, {{k: "IncrInt64", n: 2}, {k: "IncrInt64", n: 5}},
+			{{k: "settotal", n: -1, flag: true}}, {{k: "settotal", n: 3, flag: true}}, {{k: "IncrInt64", n: 1}, {k: "trigger"}}, {{k: "settotal", n: 2}, {k: "IncrInt64", n: 2}, {k: "trigger"}},
+		}
+		for _, init := range []int64{0, 1, 5} {
+			for _, cp := range completers {
+				for _, drop := range []bool{false, true} {
+					for _, auto := range []bool{false, true} {
+						path := append(append([]c09Op{}, cp...), c09Op{k: "abort", flag: drop}, c09Op{k: "IncrInt64", n: 1})
+						ref := newRefBar(init)
+						for _, o := range path {
+							ref.apply(o)
+						}
+						if !ref.done {
+							continue // this combination does not complete the bar from this initial total
+						}
+						id := fmt.Sprintf("abort-after-complete init=%d auto=%v path=%s", init, auto, pathString(path))
+						env.Trans++
+						env.Case(id, func() (string, bool, string, string) {
+							obs := runPathMode(init, path, !auto, false, auto)
+							k, dt := c09Compare(ref, obs, !auto)
+							if k != "" {
+								dt = fmt.Sprintf("after %s on AddBar(%d) (auto refresh %v): %s", pathString(path), init, auto, dt)
 							}
 							return fmt.Sprintf("cur=%d comp=%v abort=%v", obs.cur, obs.comp, obs.abrt), true, k, dt
 						})
